@@ -64,6 +64,10 @@ Definition matmul_dispatch (a b : val) : val :=
   | _, _ => VErr EModel
   end.
 
+(* LinearLayerTT.forward as repaired: the trailing dimensions of the input must be size_in (a singleton mode is not broadcast, a shorter input refused) *)
+Definition forward_call (W : ttm R) (bias X : dense R) : val :=
+  if (length W <=? length (dshape X))%nat && eqb_ln (shapeN W) (skipn (length (dshape X) - length W) (dshape X))
+  then VD (forward W bias X) else VErr EShape.
 Definition scalar_d (s : R) : val := VD (mkD [] (fun _ => s)).
 (* a TT result that collapsed to a single 1x1x1 core is returned as a 0-d tensor *)
 Definition squeeze_tt (x : tt R) : val :=
@@ -156,7 +160,7 @@ Definition apply_op (o : opn) (args : list val) (ia : list (list nat)) : val :=
   | OAdd, [VT _; VM _] | OAdd, [VM _; VT _] | OSub, [VT _; VM _] | OSub, [VM _; VT _]
   | OMul, [VT _; VM _] | OMul, [VM _; VT _] => VErr ETypes
   | OMatmul, [a; b] => matmul_dispatch a b
-  | OForward, [VM W; VD bias; VD X] => VD (forward W bias X)
+  | OForward, [VM W; VD bias; VD X] => forward_call W bias X
   | OTr, [VM x] => VM (transpose x)
   | OTr, [VT _] => VErr EArgs
   | OEye, [] => match ia with [ns] => VM (eye_ttm ns) | _ => VErr EModel end
